@@ -2278,6 +2278,8 @@ class EdgeQLSourceGenerator(codegen.SourceGenerator):
             self.visit(node.returning)
 
             if node.abstract:
+                if node.commands:
+                    self._ddl_visit_body(node.commands)
                 return
 
             if node.commands:
